@@ -37,7 +37,16 @@ def handle (ts : List String) : String :=
   let (a, vs) := runGroups C (splitGroups groups frames) (ainit C) net0 []
   -- the borrowed bytes are the `name` value: from `off` to 3 bytes before the end of the frame (`"}}`)
   let sub (v : View) : View := { v with start := v.start + off, len := v.len - off - 3, snap := (v.snap.drop off).take (v.len - off - 3) }
-  let m := " ".intercalate (vs.map fun v => if Intact a (sub v) then "same" else "diff")
-  let h := obs.all (· == "same") && obs.length == frames.length
+  let v0 := vs.head?
+  let dist (v : View) : String := match v0 with
+    | some w => if v.gen == w.gen then toString ((v.start : Int) - (w.start : Int)) else "moved"
+    | none => "0"
+  let m := " ".intercalate (vs.map fun v => (if Intact a (sub v) then "same" else "diff") ++ "@" ++ dist v)
+  -- oracle: every held item still reads as it did; and when all replies came in one read they lie
+  -- in one buffer at the distances their frames dictate (nothing was moved)
+  let offsets : List Int := (frames.foldl (fun (acc : List Int × Int) f => (acc.1 ++ [acc.2], acc.2 + f.length + 1)) ([], 0)).1
+  let want := offsets.map fun d => "same@" ++ toString d
+  let h := obs.all (·.startsWith "same@") && obs.length == frames.length && (groups.length != 1 || obs == want)
+  
   "M " ++ m ++ " | H " ++ (if h then "1" else "0")
 end DriverAlias
